@@ -1,39 +1,17 @@
-// chrono / serde_with boundaries for the C19 codec model
-use chrono::{DateTime, TimeDelta, Utc};
-use rscel::{ByteCode, CelValue, Program, ProgramDetails};
-fn prog(v: CelValue) -> Program { Program::new(ProgramDetails::new(), vec![ByteCode::Push(v)].into()) }
+// long flat chains (C01 probing): compile, run, drop
+use rscel::{BindContext, CelContext};
 fn main() {
-    println!("MIN_UTC ms {} MAX_UTC ms {}", DateTime::<Utc>::MIN_UTC.timestamp_millis(), DateTime::<Utc>::MAX_UTC.timestamp_millis());
-    let lo = DateTime::<Utc>::MIN_UTC.timestamp_millis(); let hi = DateTime::<Utc>::MAX_UTC.timestamp_millis();
-    for ms in [lo - 1, lo, hi, hi + 1] { println!("from_timestamp_millis({}) = {:?}", ms, DateTime::<Utc>::from_timestamp_millis(ms).map(|d| d.timestamp_millis())); }
-    println!("TimeDelta MAX ms {} MIN ms {}", TimeDelta::MAX.num_milliseconds(), TimeDelta::MIN.num_milliseconds());
-    for n in [0i64, 1, 499_999, 500_000, 500_001, 999_999, 1_000_000, 1_499_999, 1_500_000, -1, -499_999, -500_000, -500_001, -999_999, -1_500_000, -1_499_999] {
-        let p = prog(CelValue::Duration(TimeDelta::nanoseconds(n)));
-        let j = serde_json::to_string(&p).unwrap();
-        let b = bincode::serialize(&p).unwrap();
-        println!("dur {} ns -> json {} bin tail {:?}", n, j, &b[b.len()-8..]);
-        let t = prog(CelValue::TimeStamp(DateTime::<Utc>::from_timestamp_nanos(n)));
-        println!("ts  {} ns -> json {}", n, serde_json::to_string(&t).unwrap());
-    }
-    for d in [TimeDelta::MAX, TimeDelta::MIN] {
-        let p = prog(CelValue::Duration(d));
-        println!("dur extreme json {:?} bin {:?}", serde_json::to_string(&p), bincode::serialize(&p).map(|b| b.len()));
-    }
-    for t in [DateTime::<Utc>::MIN_UTC, DateTime::<Utc>::MAX_UTC] {
-        let p = prog(CelValue::TimeStamp(t));
-        let j = serde_json::to_string(&p);
-        println!("ts extreme json {:?} back {:?}", j, j.as_ref().ok().map(|j| serde_json::from_str::<Program>(j).map(|q| q.dumps_bc())));
-    }
-    for js in [r#"{"details":{"source":null,"params":[]},"bytecode":{"inner":[{"Push":{"Duration":-9223372036854775808}}]}}"#,
-               r#"{"details":{"source":null,"params":[]},"bytecode":{"inner":[{"Push":{"Duration":-9223372036854775807}}]}}"#,
-               r#"{"details":{"source":null,"params":[]},"bytecode":{"inner":[{"Push":{"TimeStamp":8210266876799999}}]}}"#,
-               r#"{"details":{"source":null,"params":[]},"bytecode":{"inner":[{"Push":{"TimeStamp":8210266876800000}}]}}"#,
-               r#"{"details":{"source":null,"params":[],"extra":1},"bytecode":{"inner":[{"Push":{"Float":5}}]}}"#] {
-        println!("{} => {:?}", js, serde_json::from_str::<Program>(js).map(|q| q.dumps_bc()));
-    }
-    let p = Program::from_source("x + {'a':1,'b':2,'c':3}.a + y").unwrap();
-    println!("{}", serde_json::to_string(&p).unwrap());
-    println!("{:?}", bincode::serialize(&p).unwrap());
-    let mut bytes = bincode::serialize(&p).unwrap(); bytes.extend_from_slice(&[1,2,3]);
-    println!("trailing bytes ok: {}", bincode::deserialize::<Program>(&bytes).is_ok());
+    let args: Vec<String> = std::env::args().collect();
+    let n: usize = args[1].parse().unwrap();
+    let piece = args.get(2).cloned().unwrap_or(" + 1".to_string());
+    let head = args.get(3).cloned().unwrap_or("1".to_string());
+    let src = format!("{}{}", head, piece.repeat(n));
+    let mut ctx = CelContext::new();
+    let r = ctx.add_program_str("m", &src);
+    println!("compiled: {:?}", r.is_ok());
+    let b = BindContext::new();
+    let v = ctx.exec("m", &b);
+    println!("exec: {}", format!("{:?}", v).chars().take(60).collect::<String>());
+    drop(ctx);
+    println!("dropped");
 }
